@@ -770,7 +770,22 @@ func (vc *VC) callByContract(fr *Frame, st *State, x *ssa.Call, callee *ssa.Func
 			results = append(results, v)
 		}
 		env2 := &Env{vc: vc, st: st, old: old, vars: specVarsFor(callee, args, results)}
+		var useOnly map[string]bool
+		if fr.con != nil && fr.depth == 0 {
+			useOnly = fr.con.Use[name]
+		}
 		for _, c := range con.Ensures {
+			if useOnly != nil {
+				base := c.Name
+				if i := strings.LastIndex(base, "."); i > 0 {
+					if _, err := fmt.Sscanf(base[i+1:], "%d", new(int)); err == nil {
+						base = base[:i]
+					}
+				}
+				if !useOnly[base] {
+					continue
+				}
+			}
 			g, err := env2.evalBool(c.E)
 			if err != nil {
 				vc.oblige(st, "spec-error", fmt.Sprintf("%spost@%s#%d/%s", fr.prefix, name, n, c.Name), "false", vc.pos(x.Pos()), err.Error())
